@@ -255,7 +255,7 @@ func collectorRules(c *core.Ctx, s *Stage, col, w *Goroutine, vals, result *ir.T
 				st := &p.Steps[i]
 				if st.Kind == ir.KRecv && ir.Same(st.A[0], vals) {
 					nRecv++
-					if !closedBefore(an, st) {
+					if !drainsByClose(an, st) {
 						allClosed = false
 					}
 				}
